@@ -220,7 +220,7 @@ WINDOWS = {
     "C02": ["refill-race", "refill-race-t", "drain-race"],
     "C03": ["observe", "refill-race", "drain-grow", "two-close", "drain-race"],
     "C19": ["drain-race", "drain-grow"],
-    "C14": ["drain-grow", "refill-race", "timed-sendo-peer"],
+    "C14": ["drain-grow", "refill-race", "timed-sendo-peer", "rt-refused", "rt-refused-closed"],
     "C09": ["park-disc-a", "park-disc-ra", "timed-send-disc-a", "repoll-recv-peer", "timed-recv-peer", "repoll-send-peer", "drop-send-peer"],
     "C12": ["clone-close", "clone-close-r", "clone-drop", "two-close"],
 }
